@@ -38,7 +38,7 @@ func (Driver) Info() core.Info {
 			"set members are matched to model members by documented equality; a value whose set holds two members that cannot be told apart (e.g. two unknowns) is counted and skipped",
 			"not demanded: steps whose key is unknown or marked, steps into unknown values, steps into sets, sibling order of callbacks",
 		},
-		MinNontrivial: 2000,
+		MinNontrivial: 10000,
 	}
 }
 
@@ -73,7 +73,7 @@ func walkRoot(r *core.Rand) cty.Value {
 }
 
 func (Driver) Run(c *core.Ctx) {
-	n := int64(c.N(6000, 100000))
+	n := int64(c.N(5000, 60000))
 	for i := int64(0); i < n; i++ {
 		if !c.Want(i) {
 			continue
